@@ -12,29 +12,44 @@ load); the attribute descriptors (reads / assignments build `_rbits_` / `_wbits_
 loads meet pending writes; without it the query's auto-flush first runs `_save_updated_`).  For one-to-one links:
 `Attribute.load` of the column-less side, `Attribute.db_set` through `db_update_reverse`.
 
-Family 1 `reload_<attr>` (entity E of C20: plain int a, float f, int x, volatile int v, nullable int n, reference g):
+Family 1 `reload_<attr>[_noflush]` (entity E of C20: plain int a, float f, int x, volatile int v, nullable int n, reference g):
   symbolic: the attribute's own read / write flags (r, w), the flags of ALL OTHER attributes (all read? all written?),
-  whether the reload happens under flush_disabled, the loaded row, the assigned value, the re-fetched value of that
-  attribute (NULL shapes included; reference keys concrete 7 / 8 / NULL); the other columns are re-fetched unchanged.
-  `reload_two`: a and n change together, their four flags symbolic.
+  whether the reload happens under flush_disabled (a symbolic flag, or the `_noflush` twin harness where the harness was
+  split for parallelism), the loaded row, the assigned values, the re-fetched value of that attribute (NULL shapes
+  included; reference keys concrete 7 / 8 / NULL); the other columns are re-fetched as this session last left them
+  (after an auto-flush: the flushed values).  `reload_two[_noflush]`: a and n change together, their four flags symbolic.
   Reference statement (function `_reload`):
     T0 the session raises nothing but UnrepeatableReadError;
     T1 every NON-VOLATILE attribute that was read or assigned before the reload: afterwards its visible value
        (`_vals_`) is the value visible before, or UnrepeatableReadError was raised;
-    T2 (design's completion, also the guard against "never refresh") an attribute neither read nor assigned - and the
-       volatile attribute unless assigned - shows the re-fetched value afterwards when nothing was raised;
+    T2 (the design's completion, also the guard against "never refresh") an attribute neither read nor assigned - and
+       the volatile attribute unless assigned - shows the re-fetched value afterwards when nothing was raised (floats:
+       or keeps a value within RealConverter's relative tolerance of it);
     T3 an unchanged row raises nothing.
+  Known region, split off so that the rest is still decided: `reload_g_pending` = the reference was assigned without
+  having been read, is not flushed, and its row is re-fetched with another target (GENUINE DEFECT: KeyError out of
+  Set.db_reverse_remove, see checks/c21.py); `reload_g_noflush` excludes exactly that state.
 Family 2 `o2o_*` (entities P.partner = Optional(Q) [no column], Q.p = Optional(P) [column]):
   `p.partner` is observed, later queries fetch Q rows whose link column changed (unlink Q[10], link Q[11], both orders),
   then `p.partner` is read again.  Asserted: same value as the first read, or UnrepeatableReadError.
-    o2o_relink_tracked    - the cases in which the link column Q[10].p itself had been marked as read;
+    o2o_relink_tracked    - the cases in which the link column Q[10].p itself had been marked as read (holds);
     o2o_relink_untracked  - Q[10] was loaded by key and Q[10].p never read   (GENUINE VIOLATION, see checks/c21.py)
-    o2o_none_then_linked  - `p.partner` was observed as None                  (GENUINE VIOLATION, see checks/c21.py)
-Bounds / restructuring w.r.t. DESIGN.md: the design's one kernel over fully symbolic masks and rows does not fit the
-budget (every changed column forks the path, 2^12 mask states): one attribute changes per harness, the other attributes'
-flags are all-clear or all-set, which still shows any effect on a foreign attribute.  Ints are any 32-bit value.
+    o2o_none_then_linked  - `p.partner` was observed as None                  (GENUINE DEFECT, see checks/c21.py)
+Bounds / restructuring w.r.t. DESIGN.md:
+  * the design's single kernel over fully symbolic masks and rows does not fit the budget (every changed column forks
+    the path; 2^12 mask states): one attribute changes per harness (two in reload_two), the other attributes' flags are
+    all-clear or all-set, which still shows any effect on a foreign attribute.  The state before the reload is built
+    through the public descriptors, not by writing `_rbits_`/`_wbits_`.
+  * ints: any 32-bit value.  Floats are a FINITE family (loaded 1.5, assigned -2.5, re-fetched: equal / one ulp away / just
+    outside the tolerance of either / 0.0): `RealConverter.dbvals_equal` divides by max(|old|, |new|), a non-linear real
+    query that z3 does not answer for symbolic floats (and CrossHair models floats as reals, not doubles).
+  * quick tier: NULL shapes of the attribute under test symbolic, those of the other attributes fixed (n loaded NULL,
+    g = G[7], non-NULL assignments); C21_FULL=1 (thorough) frees them and adds two more floats.
+  * error-message construction inside `Entity._db_set_` / `Attribute.db_set` is stripped by engine.rewrite (extended here
+    to `msg = '...' % args` assignments): rendering entities under CrossHair is slow and may recurse; nothing else
+    of these functions is changed, they are re-read from /repo on every run.
 Outside: fully loaded collections / phantom detection (Set.load, db_reverse_add), composite keys, lazy attributes,
-histories longer than one reload step after the observation.
+histories longer than one reload step after the observation, deletes by the concurrent writer.
 """
 import math, os
 from typing import Tuple
@@ -46,6 +61,7 @@ LOADED_G, NEW_G = K.LOADED_G, K.NEW_G
 LO, HI = K.LO, K.HI
 LAST = {}
 O2O = {}
+_exc = K._exc
 
 
 def _defang_messages():
@@ -200,15 +216,15 @@ def _reload(flags, rest_r, rest_w, noflush, L, N, change, lf=1.5, nf=2.5):
         exc = ex
     LAST.update(exc=exc, log=list(con.log), before=before, after=after)
     if before is None or after is None:
-        LAST['why'] = ['scenario failed before the reload: %r' % (exc,)]
+        LAST['why'] = ['scenario failed before the reload: %s' % _exc(exc)]
         return ok(False)
-    if exc is not None and not isinstance(exc, UnrepeatableReadError): why.append('T0: %r' % (exc,))
+    if exc is not None and not isinstance(exc, UnrepeatableReadError): why.append('T0: %s' % _exc(exc))
     want = {'a': row2['a'], 'f': row2['f'], 'x': row2['x'], 'v': row2['v'], 'n': row2['n'],
             'g': None if row2['g'] is None else (g7 if row2['g'] == LOADED_G else g8)}
     unchanged = True
     for n in change:
         if not _eq(base[n], row2[n]): unchanged = False
-    if unchanged and exc is not None: why.append('T3: unchanged row raised %r' % (exc,))
+    if unchanged and exc is not None: why.append('T3: unchanged row raised %s' % _exc(exc))
     if exc is None:
         for n in ATTRS:
             observed = (R[n] or W[n]) if n != 'v' else False
@@ -402,9 +418,9 @@ def _o2o(how, linked0, read_qp, change):
         exc = ex
     LAST.update(exc=exc, log=list(con.log), first=first, second=second)
     why = []
-    if first is K: why.append('scenario failed before the first read: %r' % (exc,))
+    if first is K: why.append('scenario failed before the first read: %s' % _exc(exc))
     elif exc is not None:
-        if not isinstance(exc, UnrepeatableReadError): why.append('raised %s instead of UnrepeatableReadError: %s' % (type(exc).__name__, exc))
+        if not isinstance(exc, UnrepeatableReadError): why.append('raised %s instead of UnrepeatableReadError' % _exc(exc))
     elif second is not first: why.append('p.partner was %s, is %s on the second read, no error' % (_nm(first), _nm(second)))
     LAST['why'] = why
     return ok(not why)
